@@ -1836,6 +1836,16 @@ def desugar_namedtuples(trees: Dict[str, ast.Module], baseline: Optional[Set[str
                     return None
         return ast.copy_location(ast.Tuple(elts=[vals[f_] for f_ in fields], ctx=ast.Load()), call)
 
+    # functions every return of which builds one record type: their results are records of that type wherever they are called
+    returns_record: Dict[str, Optional[str]] = {}
+    for tree in trees.values():
+        for fn in [x for x in ast.walk(tree) if isinstance(x, (ast.FunctionDef, ast.AsyncFunctionDef))]:
+            rets = [r for r in ast.walk(fn) if isinstance(r, ast.Return)]
+            kinds = {r.value.func.id if (r.value is not None and isinstance(r.value, ast.Call) and isinstance(r.value.func, ast.Name) and r.value.func.id in records) else None
+                     for r in rets}
+            if rets and len(kinds) == 1 and None not in kinds:
+                returns_record[fn.name] = None if fn.name in returns_record else next(iter(kinds))
+    returns_record = {k: v for k, v in returns_record.items() if v is not None}
     for tree in trees.values():
         for fn in [x for x in ast.walk(tree) if isinstance(x, (ast.FunctionDef, ast.AsyncFunctionDef))]:
             # locals bound exactly once, to a record constructor
@@ -1849,6 +1859,11 @@ def desugar_namedtuples(trees: Dict[str, ast.Module], baseline: Optional[Set[str
                         and isinstance(st.value.func, ast.Name) and st.value.func.id in records and stores.get(st.targets[0].id) == 1 \
                         and st.targets[0].id not in {a.arg for a in fn.args.args + fn.args.kwonlyargs}:
                     typed[st.targets[0].id] = st.value.func.id
+                elif isinstance(st, ast.Assign) and len(st.targets) == 1 and isinstance(st.targets[0], ast.Name) and isinstance(st.value, ast.Call) \
+                        and stores.get(st.targets[0].id) == 1 and st.targets[0].id not in {a.arg for a in fn.args.args + fn.args.kwonlyargs}:
+                    cn_ = st.value.func.id if isinstance(st.value.func, ast.Name) else st.value.func.attr if isinstance(st.value.func, ast.Attribute) else None
+                    if cn_ in returns_record:
+                        typed[st.targets[0].id] = returns_record[cn_]       # the result of a function that always returns this record type
             grew = True
             while grew:
                 grew = False
